@@ -283,6 +283,17 @@ func (c *Ctx) requireCross(construct string, target ssa.Instruction, gates []cfg
 	return ok
 }
 
+// requireCrossOrKnow: like requireCross, but a path may also reach the site
+// having learnt that v is false (want == false) / true on the way.
+func (c *Ctx) requireCrossOrKnow(construct string, target ssa.Instruction, gates []cfgx.Edge, v ssa.Value, want bool, what string) bool {
+	if v == nil {
+		return c.requireCross(construct, target, gates, what)
+	}
+	ok, w := cfgx.MustCrossOrKnow(target, gates, v, want, c.posf())
+	c.R.Check(ok, construct, c.pos(target.Pos()), "every path from entry crosses "+what, "a path from entry reaches this site without crossing "+what, w...)
+	return ok
+}
+
 // fmtEdges prints edges.
 func fmtEdges(es []cfgx.Edge) string {
 	var s []string
